@@ -35,7 +35,7 @@ func evalC06(k xCase) []pbt.Violation {
 		if lr == nil || lr.BuildErr != nil || lr.Crash != "" {
 			continue
 		}
-		for mode := 0; mode < 2; mode++ {
+		for mode := 0; mode < modesOf(x); mode++ {
 			mname := []string{"unregistered", "registered"}[mode]
 			for i, m := range k.Msgs {
 				lay := x.Ref[i].Layout[mode]
@@ -78,7 +78,7 @@ func TestC06(t *testing.T) {
 		rule: "packets (root and nested) with a calculated-from field of each integer width the language builds, either attribute spelling, both byte orders, preceded by 0..many bytes including variable-length fields and followed or not by further fields; every message is encoded twice, with the test algorithm registered and not registered, with arbitrary caller values. The test algorithm is a position-sensitive polynomial hash over the whole output buffer written so far, so covering one byte more or fewer, or only the current packet, changes it. Oracle: the field's range holds ALG(bytes[0:offset]) truncated to the declared width in the configured order when registered, the caller's value otherwise; the decoder's dump shows the wire value. Non-trivial = a checksum field with at least one preceding byte and a multi-byte width; distinct = hash of (program, messages, languages).",
 		eval: evalC06,
 		cfg: func(rt *rapid.T, avoid map[string]bool) (dsl.GenCfg, int, dsl.ValCfg, bool) {
-			return dsl.GenCfg{MaxPackets: 3, MaxFields: 5, WantSum: true, Avoid: avoid}, 3, dsl.ValCfg{MaxList: 3}, false
+			return dsl.GenCfg{MaxPackets: 3, MaxFields: 5, WantSum: true, WantLen: rapid.Bool().Draw(rt, "wantlen"), WantMatch: rapid.Bool().Draw(rt, "wantmatch"), Avoid: avoid}, 3, dsl.ValCfg{MaxList: 3}, false
 		},
 		nontrivial: func(k xCase) bool {
 			f := k.Prog.Features()
